@@ -184,9 +184,48 @@ def _targets(t):
     return out
 
 
+def _parents(func_node):
+    par = {}
+    stack = [func_node]
+    while stack:
+        n = stack.pop()
+        for c in ast.iter_child_nodes(n):
+            par[id(c)] = n
+            if not isinstance(c, (ast.FunctionDef, ast.AsyncFunctionDef, ast.ClassDef, ast.Lambda)):
+                stack.append(c)
+    return par
+
+
+def _context(node, par, func_node):
+    """enclosing control context of a binding site: tuple of (kind, arm, test expr or None) from the outside in"""
+    out = []
+    n = node
+    while n is not None and n is not func_node:
+        p = par.get(id(n))
+        if isinstance(p, ast.If):
+            arm = "T" if any(n is x for x in p.body) else "F"
+            out.append(("if", arm, p.test))
+        elif isinstance(p, (ast.For, ast.AsyncFor)):
+            out.append(("for", "", p.iter))
+        elif isinstance(p, ast.While):
+            out.append(("while", "", p.test))
+        elif isinstance(p, ast.ExceptHandler):
+            out.append(("except", "", p.type))
+        elif isinstance(p, ast.Try):
+            out.append(("try", "", None))
+        n = p
+    out.reverse()
+    return tuple(out)
+
+
 def _collect_bindings(sc):
     b = {}
     comp_targets = set()
+    par = _parents(sc.node)
+    sc.ctx = {}
+    for n in _own_nodes(sc.node):
+        if isinstance(n, (ast.Assign, ast.AnnAssign, ast.AugAssign, ast.For, ast.AsyncFor, ast.With, ast.AsyncWith, ast.ExceptHandler)):
+            sc.ctx[id(n)] = _context(n, par, sc.node)
     for n in _own_nodes(sc.node):
         if isinstance(n, (ast.Global, ast.Nonlocal)):
             sc.globals_.update(n.names)
@@ -199,23 +238,23 @@ def _collect_bindings(sc):
         if isinstance(n, ast.Assign):
             for t in n.targets:
                 for name, path in _targets(t):
-                    b.setdefault(name, []).append(("=", path, n.value))
+                    b.setdefault(name, []).append(("=", path, n.value, n))
         elif isinstance(n, ast.AnnAssign) and isinstance(n.target, ast.Name):
-            b.setdefault(n.target.id, []).append(("=", (), n.value))
+            b.setdefault(n.target.id, []).append(("=", (), n.value, n))
         elif isinstance(n, ast.AugAssign) and isinstance(n.target, ast.Name):
-            b.setdefault(n.target.id, []).append(("aug", (type(n.op).__name__,), n.value))
+            b.setdefault(n.target.id, []).append(("aug", (type(n.op).__name__,), n.value, n))
         elif isinstance(n, (ast.For, ast.AsyncFor)):
             for name, path in _targets(n.target):
-                b.setdefault(name, []).append(("for", path, n.iter))
+                b.setdefault(name, []).append(("for", path, n.iter, n))
         elif isinstance(n, (ast.With, ast.AsyncWith)):
             for it in n.items:
                 if it.optional_vars is not None:
                     for name, path in _targets(it.optional_vars):
-                        b.setdefault(name, []).append(("with", path, it.context_expr))
+                        b.setdefault(name, []).append(("with", path, it.context_expr, n))
         elif isinstance(n, ast.ExceptHandler) and n.name:
-            b.setdefault(n.name, []).append(("exc", (), n.type))
+            b.setdefault(n.name, []).append(("exc", (), n.type, n))
         elif isinstance(n, ast.NamedExpr) and isinstance(n.target, ast.Name):
-            b.setdefault(n.target.id, []).append(("=", (), n.value))
+            b.setdefault(n.target.id, []).append(("=", (), n.value, n))
         elif isinstance(n, (ast.Import, ast.ImportFrom)):
             for a in n.names:
                 sc.globals_.add((a.asname or a.name).split(".")[0])   # treat imports as fixed names
@@ -293,8 +332,11 @@ def fingerprint(sc, name, depth, memo):
         return memo[key]
     memo[key] = "~"      # cycle guard
     descs = []
-    for kind, path, expr in sc.bindings.get(name, []):
-        descs.append("%s%s:%s" % (kind, path, _canon_expr(expr, sc, depth, memo)))
+    for kind, path, expr, stmt in sc.bindings.get(name, []):
+        ctx = []
+        for ck, arm, cexpr in getattr(sc, "ctx", {}).get(id(stmt), ()):
+            ctx.append("%s%s(%s)" % (ck, arm, _canon_expr(cexpr, sc, max(depth - 1, 0), memo) if cexpr is not None else ""))
+        descs.append("%s%s:%s@%s" % (kind, path, _canon_expr(expr, sc, depth, memo), ">".join(ctx)))
     descs.sort()
     h = hashlib.sha1("|".join(descs).encode()).hexdigest()[:16]
     memo[key] = h
@@ -413,10 +455,21 @@ def canonicalise(tree, module_key, table=None, stats=None):
             fps = scope_fingerprints(sc)
             plan = {}
             taken = set(sc.locals) | sc.params | sc.nested_names
+            groups = {}
             for fp, actual in fps.items():
-                canon = want.get(fp)
-                if canon and canon != actual:
-                    plan[actual] = canon
+                groups.setdefault(fp.rsplit("#", 1)[0], []).append((int(fp.rsplit("#", 1)[1]), actual))
+            wgroups = {}
+            for fp, canon in want.items():
+                wgroups.setdefault(fp.rsplit("#", 1)[0], []).append((int(fp.rsplit("#", 1)[1]), canon))
+            for base, acts in groups.items():
+                wants = [c for _, c in sorted(wgroups.get(base, []))]
+                if not wants:
+                    continue
+                actual_names = [a for _, a in sorted(acts)]
+                free_actual = [a for a in actual_names if a not in wants]
+                free_canon = [c for c in wants if c not in actual_names]
+                for a, c in zip(free_actual, free_canon):
+                    plan[a] = c
             # drop renames that would collide with a name that stays
             staying = taken - set(plan)
             plan = {a: c for a, c in plan.items() if c not in staying}
